@@ -28,9 +28,6 @@ def build_requests(plan, abstract_backend=False, force_external=None, vacuity=Fa
                     ens.append([lab, txt])
                 else:
                     ens.append(e)
-            if vacuity and it.status == 'P':
-                # vacuity guard: with a satisfiable precondition `ensures false` must be rejected
-                ens = ens + [['VACUITY', 'false']]
             body = 'keep' if it.status == 'P' else 'external'
             if force_external and it.fid in force_external:
                 body = 'external'
@@ -46,6 +43,16 @@ def build_requests(plan, abstract_backend=False, force_external=None, vacuity=Fa
             if it.rename:
                 r['rename'] = it.rename
             reqs.append(r)
+            if vacuity and body == 'keep' and not it.no_pub:
+                # vacuity guard: an uncalled twin of the function with an added `ensures false` must be REJECTED
+                # (callees keep their normal contracts, so a pass would mean a contradictory precondition or
+                # an inconsistent callee contract)
+                import copy
+                r2 = copy.deepcopy(r)
+                r2['id'] = 'vac:%d' % i
+                r2['rename'] = (it.rename or it.locator['name']) + '__vac'
+                r2['annotations']['ensures'] = ens + [['VACUITY', 'false']]
+                reqs.append(r2)
         elif it.kind == 'type':
             reqs.append({'id': i, 'kind': 'type', 'file': it.file, 'locator': {'name': it.name}, 'rules': it.rules})
     return reqs
@@ -103,6 +110,11 @@ def assemble(plan, repo='/repo', abstract_backend=False, force_external=None, ou
             out.append('/*@F:%s@*/\n' % it.fid)
             out.append(indent(r['text'], 4 if it.group else 0))
             out.append('/*@E@*/\n')
+            r2 = resp.get('vac:%d' % i)
+            if r2 is not None and r2.get('ok'):
+                out.append('/*@F:%s__vac@*/\n' % it.fid)
+                out.append(indent(r2['text'], 4 if it.group else 0))
+                out.append('/*@E@*/\n')
             report[it.fid] = {'file': it.file, 'status': it.status, 'body_verified_text': body_kept,
                               'sha256': hashlib.sha256(r['orig_text'].encode()).hexdigest(),
                               'rewrites': r.get('rewrites', {}), 'props': it.props}
